@@ -1,3 +1,164 @@
-/-! # C16 — (stub: property theorems go here; see docs/BUILDING.md) -/
+import PtVerif.Proofs.NeutronD2O
+/-!
+# C16 — D2O contrast matching agrees with direct substitution of labile hydrogen
+
+Model (`PtVerif.Model.Neutron`): `replace` (`formulas._isotope_substitution`), `water`
+(`"H2O@0.9982n"`, `"D2O@0.9982n"` with the natural-density conversion), `d2oSlds`, `d2oSld`,
+`d2oMatch`, `mixValues` (nsf.py 1025-1131), `molecule`, `moleculeD2Osld` (fasta.Molecule).
+The solvent literals of nsf.py and fasta.py are generated (`Generated/NeutronConsts`).
+Tie: `harness/ptv/props/C16.py`.
+
+Incoherent SLD is documented not to mix linearly and is not claimed for the substituted compound.
+-/
 namespace PtVerif.C16
+open PtModel PtModel.Neutron PtProofs.Neutron
+
+/-- **solute = substituted compound.**  For every compound (atom dict with positive counts,
+    known positive density), `0 ≤ d ≤ 1` and every wavelength, the real and imaginary SLD that
+    `D2O_sld(compound, volume_fraction=1, D2O_fraction=d)` reports are those of the compound with a
+    fraction `d` of its labile hydrogens H[1] replaced by D and the rest by natural H
+    (`substituted = mol.replace(H[1], D, d).replace(H[1], H)`; its counts are
+    `substituted_counts`, its cell volume is the original one, `substituted_keeps_cell_volume`). -/
+theorem solute_sld_is_substituted_compound (t : Tbl ℝ) (c : Compound ℝ) (w d : ℝ)
+    (h : SolutePhysical t c w) (hd0 : 0 ≤ d) (hd1 : d ≤ 1) :
+    ∃ x, d2oSld t c w 1 d = some x ∧
+      (compoundSld t (substituted t.atomMass c d) w).map reIm = some (reIm x) :=
+  PtProofs.Neutron.solute_sld_is_substituted_compound t c w d h hd0 hd1
+
+/-- what "substituted" means: the labile hydrogens are gone, D gained `d·n`, H gained `(1−d)·n`,
+    every other count is unchanged -/
+theorem substituted_counts (am : Atom → ℝ) (c : Compound ℝ) (d : ℝ) :
+    lookupD (substituted am c d).atoms atomH1 = 0 ∧
+    lookupD (substituted am c d).atoms atomD = lookupD c.atoms atomD + d * lookupD c.atoms atomH1 ∧
+    lookupD (substituted am c d).atoms atomH
+      = lookupD c.atoms atomH + (1 - d) * lookupD c.atoms atomH1 ∧
+    ∀ b, b ≠ atomH1 → b ≠ atomD → b ≠ atomH →
+      lookupD (substituted am c d).atoms b = lookupD c.atoms b :=
+  PtProofs.Neutron.substituted_counts am c d
+
+/-- … at unchanged cell volume (`Formula.replace` keeps `M/ρ`) -/
+theorem substituted_keeps_cell_volume (am : Atom → ℝ) (c : Compound ℝ) (d : ℝ)
+    (hk : KeysNodup c.atoms) (hM : wsum am c.atoms ≠ 0)
+    (hM1 : wsum am (replace am c atomH1 atomD d).atoms ≠ 0)
+    (hMS : wsum am (substituted am c d).atoms ≠ 0) :
+    cellVolume (wsum am (substituted am c d).atoms) (substituted am c d).density
+      = cellVolume (wsum am c.atoms) c.density :=
+  PtProofs.Neutron.substituted_keeps_cell_volume am c d hk hM hM1 hMS
+
+/-- one `replace` step: every count-weighted sum (mass, Σ n·b, …) changes by
+    `n_source · portion · (f target − f source)` and the density by the mass ratio -/
+theorem replace_sums (am f : Atom → ℝ) (c : Compound ℝ) (s tg : Atom) (p : ℝ)
+    (hk : KeysNodup c.atoms) (hne : s ≠ tg) :
+    wsum f (replace am c s tg p).atoms
+      = wsum f c.atoms + lookupD c.atoms s * p * (f tg - f s) :=
+  PtProofs.Neutron.replace_wsum am f c s tg p hk hne
+
+theorem replace_density (am : Atom → ℝ) (c : Compound ℝ) (s tg : Atom) (p : ℝ)
+    (hk : KeysNodup c.atoms) (hne : s ≠ tg) (hM : wsum am c.atoms ≠ 0) :
+    (replace am c s tg p).density
+      = c.density * wsum am (replace am c s tg p).atoms / wsum am c.atoms :=
+  PtProofs.Neutron.replace_density am c s tg p hk hne hM
+
+/-- **volume fraction 0** is the H2O/D2O solvent mixture (all three components) -/
+theorem vf0_is_solvent (t : Tbl ℝ) (c : Compound ℝ) (w d : ℝ) :
+    d2oSld t c w 0 d = (d2oSlds t c w).map fun s => mixValues s.2.1 s.1 d :=
+  PtProofs.Neutron.vf0_is_solvent t c w d
+
+/-- **volume fraction 1** is the solute: D- and H-substituted forms mixed by the D2O fraction -/
+theorem vf1_is_solute (t : Tbl ℝ) (c : Compound ℝ) (w d : ℝ) :
+    d2oSld t c w 1 d = (d2oSlds t c w).map fun s => mixValues s.2.2.2 s.2.2.1 d :=
+  PtProofs.Neutron.vf1_is_solute t c w d
+
+/-- **in between** the SLDs mix linearly in the volume fraction -/
+theorem linear_in_volume_fraction (t : Tbl ℝ) (c : Compound ℝ) (w vf d : ℝ) (s1 s0 : Sld3 ℝ)
+    (h1 : d2oSld t c w 1 d = some s1) (h0 : d2oSld t c w 0 d = some s0) :
+    d2oSld t c w vf d = some (mixValues s1 s0 vf) :=
+  PtProofs.Neutron.linear_in_volume_fraction t c w vf d s1 s0 h1 h0
+
+/-- **match point**: at the reported D2O fraction the solution's real SLD is the same for every
+    volume fraction (and equals the reported SLD); the denominator is assumed non-zero, i.e. a
+    match point exists -/
+theorem match_point_independent_of_vf (t : Tbl ℝ) (c : Compound ℝ) (w : ℝ)
+    (s : Sld3 ℝ × Sld3 ℝ × Sld3 ℝ × Sld3 ℝ) (hs : d2oSlds t c w = some s)
+    (hden : matchDenominator s ≠ 0) (f sld : ℝ) (hm : d2oMatch t c w = some (f, sld)) (vf : ℝ) :
+    (d2oSld t c w vf f).map (·.1) = some sld :=
+  PtProofs.Neutron.match_point_independent_of_vf t c w s hs hden f sld hm vf
+
+/-- … and it is *the* fraction with that property -/
+theorem match_point_unique (t : Tbl ℝ) (c : Compound ℝ) (w : ℝ)
+    (s : Sld3 ℝ × Sld3 ℝ × Sld3 ℝ × Sld3 ℝ) (hs : d2oSlds t c w = some s)
+    (hden : matchDenominator s ≠ 0) (f sld : ℝ) (hm : d2oMatch t c w = some (f, sld)) (d : ℝ)
+    (heq : (d2oSld t c w 0 d).map (·.1) = (d2oSld t c w 1 d).map (·.1)) : d = f :=
+  PtProofs.Neutron.match_point_unique t c w s hs hden f sld hm d heq
+
+/-- **fasta**: `Molecule.sld/.Dsld` are the real SLDs of the H- and D-substituted forms and
+    `Molecule.D2Omatch` is the match fraction of `D2O_match` as a percentage.  The proof uses
+    that fasta.py and nsf.py contain the same solvent literals (generated data). -/
+theorem fasta_match_is_percentage (t : Tbl ℝ) (m : Compound ℝ) (mol : Molecule ℝ)
+    (hmol : molecule t m = some mol) :
+    ∃ s f sld, d2oSlds t m PtGen.ABSORPTION_WAVELENGTH = some s ∧
+      d2oMatch t m PtGen.ABSORPTION_WAVELENGTH = some (f, sld) ∧
+      mol.sld = s.2.2.1.1 ∧ mol.dsld = s.2.2.2.1 ∧ mol.d2oMatch = 100 * f :=
+  PtProofs.Neutron.fasta_match_is_percentage t m mol hmol
+
+/-- **fasta**: `Molecule.D2Osld(vf, d)` is the real part of `D2O_sld(labile formula, vf, d)` -/
+theorem fasta_D2Osld_eq (t : Tbl ℝ) (m : Compound ℝ) (vf d : ℝ) :
+    moleculeD2Osld t m vf d = (d2oSld t m PtGen.ABSORPTION_WAVELENGTH vf d).map (·.1) :=
+  PtProofs.Neutron.fasta_D2Osld_eq t m vf d
+
+/-- the two modules use the same solvent (data fact over the generated literals) -/
+theorem fasta_water_eq_nsf_water :
+    (PtGen.fasta_H2O_natural_density : ℝ) = PtGen.nsf_H2O_natural_density ∧
+    (PtGen.fasta_D2O_natural_density : ℝ) = PtGen.nsf_D2O_natural_density :=
+  PtProofs.Neutron.fasta_water_eq_nsf_water
+
+/-! ### non-vacuity: alanine-like `C3 H4 H[1] N O` over a small table satisfies `SolutePhysical` -/
+
+noncomputable def exTbl : Tbl ℝ where
+  recOf := fun z a =>
+    if z = 1 ∧ a = 0 then some ⟨-3.739, 0.3326, 82.02, 4.2e22, none⟩
+    else if z = 1 ∧ a = 1 then some ⟨-3.7406, 0.3326, 82.03, 4.2e22, none⟩
+    else if z = 1 ∧ a = 2 then some ⟨6.671, 0.000519, 7.64, 4.2e22, none⟩
+    else if z = 6 ∧ a = 0 then some ⟨6.646, 0.0035, 5.551, 1.1e23, none⟩
+    else if z = 7 ∧ a = 0 then some ⟨9.36, 1.9, 11.51, 3.5e22, none⟩
+    else if z = 8 ∧ a = 0 then some ⟨5.803, 0.00019, 4.232, 4.3e22, none⟩
+    else none
+  mass := fun z a => if z = 1 then (if a = 2 then 2.014 else 1.008) else if z = 6 then 12.011
+    else if z = 7 then 14.007 else 15.999
+  me := 0
+
+def exAla : Compound ℝ :=
+  ⟨[(⟨6, 0, 0⟩, 3), (⟨1, 0, 0⟩, 4), (⟨1, 1, 0⟩, 1), (⟨7, 0, 0⟩, 1), (⟨8, 0, 0⟩, 1)], 1.4⟩
+
+example : SolutePhysical exTbl exAla 1.798 where
+  keys := by unfold KeysNodup exAla; decide
+  data := by
+    intro e he
+    simp [exAla] at he
+    rcases he with rfl | rfl | rfl | rfl | rfl <;> simp [exTbl, Tbl.neutron]
+  dataH := by simp [exTbl, Tbl.neutron, atomH]
+  dataD := by simp [exTbl, Tbl.neutron, atomD]
+  dataO := by simp [exTbl, Tbl.neutron, atomO]
+  nonempty := by simp [exAla]
+  counts := by
+    intro e he
+    simp [exAla] at he
+    rcases he with rfl | rfl | rfl | rfl | rfl <;> norm_num
+  masses := by
+    intro a
+    simp only [Tbl.atomMass, PtModel.atomMass, exTbl, mul_zero, sub_zero, ite_self]
+    split_ifs <;> norm_num
+  density := by simp [exAla]; norm_num
+  im := by
+    intro a
+    have h0 := lambda0_pos
+    unfold pa Tbl.neutron exTbl
+    simp only
+    split_ifs <;> simp only [scatteringByWavelength, NRec.bcComplex, lit, le_refl] <;>
+      first
+      | (apply div_nonpos_of_nonpos_of_nonneg
+         · norm_num
+         · push_cast; positivity)
+      | norm_num
+
 end PtVerif.C16
